@@ -10,7 +10,9 @@ already had a strong PREPARE quorum in an earlier round — is proved of the exe
 (`F3.Instance.runFrom_guarded`, candidate-set soundness `CandOK`), giving `validity_model`.
 
 The second sentence of the property (unanimous honest input + synchrony ⇒ that chain is decided) is a
-liveness statement under a real-time bound; see `unanimous_decides_partial` in Props/C06.
+liveness statement under a real-time bound: its untimed core is `C06.unanimous_step_*` (each phase of round 0
+ends with the unanimous value once a strong quorum for it has been tallied); the timed claim is validated on
+every `sync`-mode run of the harness (oracle `C02-unanimous-synchronous-run-decided-another-chain`).
 -/
 namespace F3.Props.C02
 open F3.Granite F3.Props.C01
